@@ -204,17 +204,23 @@ func (c *Cache) IsDir(src string) bool {
 }
 
 // MkdirAll create directory recursively
-func (c *Cache) MkdirAll(dest string, filemode os.FileMode) error {
+func (c *Cache) MkdirAll(dest string, filemode os.FileMode) (err error) {
 	dest = varutil.CleanPath(dest)
+	if err = c.bufferFS.MkdirAll(dest, filemode); err != nil {
+		return err
+	}
 	c.changeMkdirAll(dest, filemode)
-	return c.bufferFS.MkdirAll(dest, filemode)
+	return nil
 }
 
 // Writer return a file node writer
-func (c *Cache) Writer(dest string) (filesystem.Writer, error) {
+func (c *Cache) Writer(dest string) (writer filesystem.Writer, err error) {
 	dest = varutil.CleanPath(dest)
+	if writer, err = c.bufferFS.Writer(dest); err != nil {
+		return nil, err
+	}
 	c.changeWrite(dest, true)
-	return c.bufferFS.Writer(dest)
+	return writer, nil
 }
 
 // Reader return a file node reader
@@ -234,8 +240,11 @@ func (c *Cache) ReadFile(src string) ([]byte, error) {
 // WriteFile write file data
 func (c *Cache) WriteFile(dest string, data []byte, perm os.FileMode) error {
 	dest = varutil.CleanPath(dest)
+	if err := c.bufferFS.WriteFile(dest, data, perm); err != nil {
+		return err
+	}
 	c.changeWrite(dest, true)
-	return c.bufferFS.WriteFile(dest, data, perm)
+	return nil
 }
 
 // Filespace get directory node and return it as filespace
